@@ -3,7 +3,8 @@
    Proofs/MergeHash.v.  The model (Model/Merge.v, Model/MergeConfig.v) is the
    code after the fix: commits listed in docs/C05.md. *)
 From Coq Require Import List Ascii String ZArith NArith Bool.
-From YP Require Import Outcome PyStr PyVal Doc PathParser Searches MergeConfig Merge SpecC05 MergeBasics MergeHash.
+From YP Require Import Outcome PyStr PyVal Doc PathParser Searches MergeConfig Merge SpecC05 SpecC05Union MergeBasics MergeHash
+  MergeNoCrash MergeUnion MergeUnique.
 (* obligations tying the models' literal tables to the tables regenerated from the source *)
 From YP Require Import GenTables.
 Import ListNotations.
@@ -44,6 +45,44 @@ Theorem C05_left_frame :
 Proof. exact left_frame. Qed.
 Print Assumptions C05_left_frame.
 
+(* HASHES COMBINE PER KEY (hashes=deep reached the two Hashes).  For all
+   documents, policies and rule tables; the side conditions are the
+   well-formedness of a dict (keys are Scalars; the right-hand keys are
+   pairwise unequal), both computable.
+   Keys: the left keys -- the left key objects -- in their order; the right-only
+   items in the right-hand order (with their values); the two interleaved where
+   the insertion buffer of _merge_dicts writes them (never behind a later
+   right-only item, never reordering left items).
+   Values: left-only -> left value; right-only -> right value; common -> the
+   policy-defined merge of the two values (SpecC05Union.mg_common_value: the
+   policy in force for the right-hand value keeps the left value, takes the
+   right one, or combines the two by the merge of these two values, carrying
+   the right-hand tag). *)
+Theorem C05_hash_union :
+  forall lit cfg ri rkvs nc li lkvs m,
+    mg_keys_leaf lkvs = true -> mg_keys_leaf rkvs = true -> mg_distinct rkvs = true ->
+    merge_rec lit cfg (NMap ri rkvs) nc (NMap li lkvs) = Ok m ->
+    exists res, m = NMap li res /\
+      named_keys (keys_of lkvs) res = map fst lkvs /\
+      unnamed_part (keys_of lkvs) res = unnamed_part (keys_of lkvs) rkvs /\
+      (forall k, named (keys_of rkvs) k = false -> assoc_key k res = assoc_key k lkvs) /\
+      (forall key rv, In (key, rv) rkvs -> assoc_key (key_val key) lkvs = None ->
+         assoc_key (key_val key) res = Some rv) /\
+      (forall key rv lv, In (key, rv) rkvs -> assoc_key (key_val key) lkvs = Some lv ->
+         exists v, mg_common_value lit cfg (oid ri) (key_val key) lv rv = Ok v /\
+                   assoc_key (key_val key) res = Some v).
+Proof. exact hash_union. Qed.
+Print Assumptions C05_hash_union.
+
+(* the key set of the merged Hash is the union of the two key sets *)
+Theorem C05_hash_union_keys :
+  forall lit cfg ri rkvs nc li lkvs res,
+    mg_keys_leaf lkvs = true -> mg_keys_leaf rkvs = true -> mg_distinct rkvs = true ->
+    merge_rec lit cfg (NMap ri rkvs) nc (NMap li lkvs) = Ok (NMap li res) ->
+    forall k, assoc_key k res <> None <-> (assoc_key k lkvs <> None \/ assoc_key k rkvs <> None).
+Proof. exact hash_union_keys. Qed.
+Print Assumptions C05_hash_union_keys.
+
 (* Right-hand scalars override.  FULL statement (false of the code, see the
    _refuted witness): a Scalar under a key both Hashes have replaces the
    left-hand value whenever no per-path rule speaks for it.  What holds: the
@@ -57,6 +96,19 @@ Theorem C05_scalar_override_partial :
     assoc_key (key_val key) kvs' = Some (NLeaf vi v).
 Proof. exact scalar_override_step. Qed.
 Print Assumptions C05_scalar_override_partial.
+
+(* ... lifted from one step to the whole Hash merge: after _merge_dicts has run over ALL
+   right-hand keys (buffer flushes, later insertions, nested merges), the key holds the
+   right-hand Scalar -- under the same guard (the finding F-C05-1 is about that lookup) *)
+Theorem C05_scalar_override_loop_partial :
+  forall lit cfg ri rkvs nc li lkvs m key vi v,
+    mg_keys_leaf lkvs = true -> mg_keys_leaf rkvs = true -> mg_distinct rkvs = true ->
+    merge_rec lit cfg (NMap ri rkvs) nc (NMap li lkvs) = Ok m ->
+    In (key, NLeaf vi v) rkvs -> assoc_key (key_val key) lkvs <> None ->
+    dict_shortcut cfg (NLeaf vi v) (mkcoord (oid vi) (Some (oid ri)) (Some (key_val key))) = Ok GoOn ->
+    exists res, m = NMap li res /\ assoc_key (key_val key) res = Some (NLeaf vi v).
+Proof. exact scalar_override_loop. Qed.
+Print Assumptions C05_scalar_override_loop_partial.
 
 (* what can stop or shortcut the step: only the aoh policy text *)
 Theorem C05_scalar_step_policy :
@@ -99,6 +151,19 @@ Theorem C05_array_right :
 Proof. exact array_right_replaces. Qed.
 Print Assumptions C05_array_all.
 
+(* arrays=UNIQUE, declaratively, for all inputs: the result is the left Array followed by
+   those right-hand elements that equal (Python ==, in the merger's tagless form) no
+   element already present -- no left element, no right-hand element appended before --
+   in the right-hand order; an element of the result is the element standing there, or
+   a right-hand element matching it that the code put in its place (mg_chain). *)
+Theorem C05_array_unique :
+  forall cfg li lels ri rels nc,
+    array_merge_mode cfg nc = Ok AUnique ->
+    exists m i res, merge_simple_lists cfg (NSeq li lels) (NSeq ri rels) nc = Ok m /\ ret m = NSeq i res /\
+      Forall2 (mg_chain rels) (lels ++ mg_new_tagless (map tagless lels) rels) res.
+Proof. exact array_unique_declarative. Qed.
+Print Assumptions C05_array_unique.
+
 (* arrays of hashes: ALL concatenates, LEFT keeps, RIGHT replaces *)
 Theorem C05_aoh_all_left_right :
   forall lit cfg ri rec0 rest nc li lels,
@@ -111,6 +176,62 @@ Theorem C05_aoh_all_left_right :
        merge_rec lit cfg (NSeq ri (rec0 :: rest)) nc (NSeq li lels) = Ok (NSeq ri (rec0 :: rest))).
 Proof. exact aoh_modes. Qed.
 Print Assumptions C05_aoh_all_left_right.
+
+(* aoh=UNIQUE: the left list followed by the right-hand elements that equal (Python ==
+   on the records, "IN FULL") nothing already present, in order *)
+Theorem C05_aoh_unique :
+  forall lit cfg ri rec0 rest nc li lels,
+    is_map rec0 = true -> aoh_merge_mode cfg nc = Ok OUnique ->
+    merge_rec lit cfg (NSeq ri (rec0 :: rest)) nc (NSeq li lels) =
+    Ok (NSeq li (lels ++ mg_new_full lels (rec0 :: rest))).
+Proof. exact aoh_unique_declarative. Qed.
+Print Assumptions C05_aoh_unique.
+
+(* aoh=DEEP by identity key.  The right-hand elements are taken in order, each against the
+   list as it then stands (C05_aoh_deep); for one element (C05_aoh_deep_step): a non-Hash is
+   appended; a record whose identity value -- compared in its literal type -- no record
+   present has is appended; otherwise the FIRST record with that identity value is
+   replaced, in place, by the Hash merge of the two (C05_hash_union applies to it) under
+   the right-hand tag, and nothing else moves; a record lacking the identity key is a
+   MergeException.  The key: the [keys] entry of the first right-hand record, else the
+   entry of its Array, else the first key of that first record (C05_aoh_key). *)
+Theorem C05_aoh_deep :
+  forall lit cfg ri rec0 rest nc li lels,
+    is_map rec0 = true -> aoh_merge_mode cfg nc = Ok ODeep ->
+    merge_rec lit cfg (NSeq ri (rec0 :: rest)) nc (NSeq li lels) =
+    (do els <- foldM (fun ls ele => aoh_step lit (merge_rec lit cfg) ODeep
+                          (aoh_merge_key cfg (mkcoord (node_oid rec0) (Some (oid ri)) (Some (PInt 0))) (first_key rec0))
+                          ls ele) (rec0 :: rest) lels;
+     Ok (NSeq li els)).
+Proof. exact aoh_deep_declarative. Qed.
+
+Theorem C05_aoh_deep_step :
+  forall lit cfg idk lels ele lels',
+    aoh_step lit (merge_rec lit cfg) ODeep idk lels ele = Ok lels' ->
+    (is_map ele = false -> lels' = lels ++ [ele]) /\
+    (forall i kvs, ele = NMap i kvs ->
+       exists idn idv, assoc_key idk kvs = Some idn /\ tagless_value lit idn = Ok idv /\
+         (((forall e, In e lels -> ~ mg_matches lit idk idv e) /\ lels' = lels ++ [ele]) \/
+          (exists j lh m, nth_error lels j = Some lh /\ mg_matches lit idk idv lh /\
+             (forall j' e, (j' < j)%nat -> nth_error lels j' = Some e -> ~ mg_matches lit idk idv e) /\
+             merge_rec lit cfg ele (mkcoord (node_oid ele) None None) lh = Ok m /\
+             lels' = replace_nth j (set_tag m (node_tag ele)) lels))).
+Proof. exact deep_step. Qed.
+Print Assumptions C05_aoh_deep_step.
+
+Theorem C05_aoh_deep_missing_key :
+  forall lit cfg idk lels i kvs,
+    assoc_key idk kvs = None -> aoh_step lit (merge_rec lit cfg) ODeep idk lels (NMap i kvs) = Raise MergeExc.
+Proof. exact deep_missing_key. Qed.
+
+Theorem C05_aoh_key :
+  forall cfg nc fk,
+    let k1 := get_key_for cfg nc in
+    let k2 := parent_key (mc_parent nc) (m_keys cfg) in
+    aoh_merge_key cfg nc fk =
+    if nonempty k1 then PStr k1 else if nonempty k2 then PStr k2
+    else match fk with Some f => f | None => PStr "" end.
+Proof. exact aoh_key_choice. Qed.
 
 (* sets: LEFT keeps, RIGHT replaces, UNIQUE keeps the left members in front and
    appends right-hand members only *)
@@ -148,6 +269,26 @@ Theorem C05_impossible_nested_is_MergeExc :
 Proof. exact impossible_below. Qed.
 Print Assumptions C05_impossible_nested_is_MergeExc.
 
+(* NEVER A CRASH.  For every pair of documents, every configuration (option
+   texts, [defaults], rule and key tables -- valid or not) and every
+   literal_eval that behaves, the merge ends in a document, in a
+   MergeException, or in the NameError of a policy lookup that met a text
+   outside its enumeration (a configuration error: mg_bad_lookup).  Never
+   AttributeError / KeyError / TypeError, never OutOfFuel (the merge model
+   uses no fuel: it is structurally recursive in the right-hand document). *)
+Theorem C05_no_crash :
+  forall lit cfg, mg_lit_ok lit -> forall l r, mg_clean cfg (merge_root lit cfg l r).
+Proof. exact merge_root_clean. Qed.
+Print Assumptions C05_no_crash.
+
+(* ... and with option / rule texts that are members of their enumerations
+   (computable: mg_cfg_valid) only the first two remain *)
+Theorem C05_no_crash_valid_config :
+  forall lit cfg l r, mg_lit_ok lit -> mg_cfg_valid cfg = true ->
+    (exists m, merge_root lit cfg l r = Ok m) \/ merge_root lit cfg l r = Raise MergeExc.
+Proof. exact merge_root_valid_config. Qed.
+Print Assumptions C05_no_crash_valid_config.
+
 (* ---------------- non-vacuity ---------------- *)
 Definition mapn (o : N) (kvs : list (node * node)) := NMap (mkinfo o None true None) kvs.
 Definition seqn (o : N) (els : list node) := NSeq (mkinfo o None true None) els.
@@ -174,6 +315,52 @@ Example C05_aoh_deep_example :
               mapn 22 [(k "id", leaf 6 (PInt 2))]]) =
   Ok (seqn 10 [mapn 11 [(k "id", leaf 3 (PInt 1)); (k "v", leaf 5 (PInt 2))]; mapn 22 [(k "id", leaf 6 (PInt 2))]]).
 Proof. vm_compute. reflexivity. Qed.
+
+(* the hypotheses of C05_hash_union hold of that pair, and of a pair with a nested merge *)
+Example C05_hash_union_example :
+  let lk := [(k "a", leaf 3 (PInt 1)); (k "b", mapn 11 [(k "p", leaf 4 (PInt 2))]); (k "c", leaf 5 (PInt 3))] in
+  let rk := [(k "x", leaf 6 (PInt 9)); (k "b", mapn 21 [(k "q", leaf 7 (PInt 7))]); (k "y", leaf 8 (PInt 8))] in
+  mg_keys_leaf lk = true /\ mg_keys_leaf rk = true /\ mg_distinct rk = true /\
+  merge_rec no_lit (cfg_plain None None None None) (mapn 20 rk) (mkcoord 20 None None) (mapn 10 lk) =
+  Ok (mapn 10 [(k "a", leaf 3 (PInt 1)); (k "x", leaf 6 (PInt 9));
+               (k "b", mapn 11 [(k "p", leaf 4 (PInt 2)); (k "q", leaf 7 (PInt 7))]);
+               (k "c", leaf 5 (PInt 3)); (k "y", leaf 8 (PInt 8))]).
+Proof. repeat split; vm_compute; reflexivity. Qed.
+
+(* UNIQUE: [1, 2] + [2, 3, 3] keeps 1, takes the right-hand 2 in place of the left one, appends one 3 *)
+Example C05_unique_spec_example :
+  mg_new_tagless (map tagless [leaf 3 (PInt 1); leaf 4 (PInt 2)]) [leaf 5 (PInt 2); leaf 6 (PInt 3); leaf 7 (PInt 3)]
+    = [leaf 6 (PInt 3)] /\
+  array_merge_mode (cfg_plain None (Some "unique") None None) (mkcoord 20 None None) = Ok AUnique /\
+  mg_new_full [mapn 11 [(k "a", leaf 3 (PInt 1))]] [mapn 21 [(k "a", leaf 3 (PInt 1))]; mapn 22 [(k "a", leaf 4 (PInt 2))]]
+    = [mapn 22 [(k "a", leaf 4 (PInt 2))]].
+Proof. repeat split; vm_compute; reflexivity. Qed.
+
+(* DEEP: the hypotheses of C05_aoh_deep_step hold on the example above (second branch: merged in place) *)
+Example C05_aoh_deep_step_example :
+  aoh_step no_lit (merge_rec no_lit (cfg_plain None None (Some "deep") None)) ODeep (PStr "id")
+    [mapn 11 [(k "id", leaf 3 (PInt 1)); (k "v", leaf 4 (PInt 1))]]
+    (mapn 21 [(k "id", leaf 3 (PInt 1)); (k "v", leaf 5 (PInt 2))]) =
+  Ok [mapn 11 [(k "id", leaf 3 (PInt 1)); (k "v", leaf 5 (PInt 2))]].
+Proof. vm_compute. reflexivity. Qed.
+
+(* the guard of C05_scalar_override_loop_partial holds without an aoh option *)
+Example C05_scalar_override_loop_example :
+  dict_shortcut (cfg_plain None None None None) (leaf 7 (PInt 7)) (mkcoord 7 (Some 20) (Some (PStr "b"))) = Ok GoOn.
+Proof. vm_compute. reflexivity. Qed.
+
+(* the hypotheses of C05_no_crash are satisfiable; the NameError case exists *)
+Example C05_no_crash_example :
+  mg_lit_ok no_lit /\
+  mg_cfg_valid (mkconfig true [mkrule (mkcoord 21 (Some 20) (Some (PStr "a"))) "left"] [] None (Some "unique")
+                         (Some "deep") None None (Some "right") None None None None) = true /\
+  mg_cfg_valid (cfg_plain (Some "unique") None None None) = false /\
+  merge_root no_lit (cfg_plain (Some "unique") None None None)
+    (mapn 10 [(k "a", leaf 3 (PInt 1))]) (mapn 20 [(k "a", leaf 4 (PInt 2))]) = Raise name_error.
+Proof.
+  split; [intros s; exists LFail; split; [reflexivity|exact I]|].
+  repeat split; vm_compute; reflexivity.
+Qed.
 
 (* DESIGN #17, after the fix: {a: 1} merged with {a: []} is a merge error *)
 Example C05_empty_array_into_scalar :
